@@ -416,6 +416,10 @@ class IntEnc:
             elif k in (z3.Z3_OP_ULT, z3.Z3_OP_ULEQ, z3.Z3_OP_UGT, z3.Z3_OP_UGEQ):
                 a, b = tr(ch[0]), tr(ch[1])
                 out = {z3.Z3_OP_ULT: a < b, z3.Z3_OP_ULEQ: a <= b, z3.Z3_OP_UGT: a > b, z3.Z3_OP_UGEQ: a >= b}[k]
+            elif k == z3.Z3_OP_BUMUL_NO_OVFL and any(z3.is_bv_value(c) for c in ch):
+                const = [c for c in ch if z3.is_bv_value(c)][0]
+                other = ch[1] if const is ch[0] else ch[0]
+                out = I(const.as_long()) * tr(other) < I(1 << other.size())
             elif k in (z3.Z3_OP_SLT, z3.Z3_OP_SLEQ, z3.Z3_OP_SGT, z3.Z3_OP_SGEQ):
                 a, b = self.signed(ch[0]), self.signed(ch[1])
                 out = {z3.Z3_OP_SLT: a < b, z3.Z3_OP_SLEQ: a <= b, z3.Z3_OP_SGT: a > b, z3.Z3_OP_SGEQ: a >= b}[k]
